@@ -141,6 +141,7 @@ type rcfg struct {
 	Participants []uint16 // session participants (honest + Byzantine)
 	Honest       []uint16
 	All          []uint16 // configured membership (participants + outsiders)
+	T            int      // key-generation threshold (0: number of participants)
 }
 
 // rw is one world of real Schemes.
@@ -226,7 +227,11 @@ func newRW(cfg rcfg) *rw {
 				sc.Sign(ctx, world.Sha([]byte("digest")), signTopic)
 				return
 			}
-			sc.KeyGen(ctx, len(cfg.Participants), len(cfg.Participants))
+			t := cfg.T
+			if t == 0 {
+				t = len(cfg.Participants)
+			}
+			sc.KeyGen(ctx, len(cfg.Participants), t)
 		}()
 	}
 	for _, id := range cfg.Honest {
